@@ -758,4 +758,55 @@ theorem constCutoffB_sound {sims : List SimCfg} (h : constCutoffB sims = true) :
   have := this (s, d) hd
   simpa using this
 
+/-! ### the executable decision of `Uniform` is sound -/
+
+theorem uniformB_sound {sims : List SimCfg} (h : uniformB sims = true) : Uniform sims := by
+  unfold uniformB at h
+  cases hp : cutTables sims with
+  | mk lo hi =>
+  rw [hp] at h
+  simp only [Bool.and_eq_true] at h
+  obtain ⟨hclosed, heq⟩ := h
+  -- unpack the check
+  have hE : ∀ m sd, sd ∈ (sims.getD m {}).inputDelays →
+      (sd.1 < sims.length ∧ lo.get sd.1 m ≠ 0 ∧ lo.get sd.1 m ≤ sd.2.cutoff ∧ sd.2.cutoff ≤ hi.get sd.1 m) ∧
+      ∀ t, t < sims.length → lo.get m t ≠ 0 →
+        lo.get sd.1 t ≠ 0 ∧ lo.get sd.1 t ≤ min sd.2.cutoff (lo.get m t) ∧ min sd.2.cutoff (hi.get m t) ≤ hi.get sd.1 t := by
+    intro m sd hsd
+    unfold cutClosedB at hclosed
+    rw [List.all_eq_true] at hclosed
+    have h1 := hclosed m (List.mem_range.mpr (mem_inputDelays_lt hsd))
+    rw [List.all_eq_true] at h1
+    have h2 := h1 sd hsd
+    simp only [Bool.and_eq_true, bne_iff_ne, ne_eq, decide_eq_true_eq, List.all_eq_true, List.mem_range, Bool.or_eq_true, beq_iff_eq] at h2
+    refine ⟨⟨h2.1.1.1.1, h2.1.1.1.2, h2.1.1.2, h2.1.2⟩, fun t ht hne => ?_⟩
+    rcases h2.2 t ht with h0 | h3
+    · exact absurd h0 hne
+    · exact ⟨h3.1.1, h3.1.2, h3.2⟩
+  have hpath : ∀ {s t : Sid} {p : List Sid} {d : TI}, RealPath sims s t p d →
+      s < sims.length ∧ lo.get s t ≠ 0 ∧ lo.get s t ≤ d.cutoff ∧ d.cutoff ≤ hi.get s t := by
+    intro s t p d hr
+    induction hr with
+    | edge he => exact (hE _ _ he).1
+    | @cons s m t d dm path he hrest ih =>
+      obtain ⟨h1, h2, h3⟩ := (hE m (s, d) he).2 t (realPath_dest_lt hrest) ih.2.1
+      simp only at h1 h2 h3
+      refine ⟨(hE m (s, d) he).1.1, h1, ?_, ?_⟩
+      · simp only [TI.add]
+        have := ih.2.2.1
+        omega
+      · simp only [TI.add]
+        have := ih.2.2.2
+        omega
+  intro s t p d p' d' h1 h2
+  have a := hpath h1
+  have b := hpath h2
+  have ht : t < sims.length := realPath_dest_lt h1
+  rw [List.all_eq_true] at heq
+  have e1 := heq s (List.mem_range.mpr a.1)
+  rw [List.all_eq_true] at e1
+  have e2 := e1 t (List.mem_range.mpr ht)
+  simp only [beq_iff_eq] at e2
+  omega
+
 end Mosaik
